@@ -76,7 +76,7 @@ class Report:
         out_lines = []
         new = []
         listed = []
-        vdir = os.path.join(VERIF, "violations")
+        vdir = os.path.join(os.environ.get("VERIF_OUT_DIR", VERIF), "violations")
         os.makedirs(vdir, exist_ok=True)
         for f in os.listdir(vdir):
             if f.startswith(self.pid + "-"):
@@ -171,7 +171,7 @@ class Report:
             "wall_s": round(wall, 2),
             "violations": len(new),
         }
-        edir = os.path.join(VERIF, "evidence")
+        edir = os.path.join(os.environ.get("VERIF_OUT_DIR", VERIF), "evidence")
         os.makedirs(edir, exist_ok=True)
         with open(os.path.join(edir, self.pid + ".json"), "w") as fh:
             json.dump(ev, fh, indent=1, default=str)
